@@ -261,7 +261,7 @@ def cut_after_exec(trace, x, outp):
     return n
 
 
-NEV = dict(events=0, encodes=0, packets=0, decodes=0, executions=0, refused=0, ms_packets=0, one_byte_100ms=0, toc_only=0, nan_inputs=0)
+NEV = dict(redundancy_frames_bound=0, drift=0, events=0, encodes=0, packets=0, decodes=0, executions=0, refused=0, ms_packets=0, one_byte_100ms=0, toc_only=0, nan_inputs=0)
 
 
 def count_events(ctx, out):
@@ -334,6 +334,17 @@ def judge(ctx, runs, what, exe=None):
     for (k, ip, out), res in vf.parallel(val, good):
         count_events(ctx, out)
         for cur, base, acc, rej, r in res:
+            # model conformance of the first decoder (control state, redundancy / transition decision): SPEC-DRIFT only
+            red = [int(p[5:-1]) for p in r.prints if p.startswith('"RED ')]
+            if red:
+                NEV["redundancy_frames_bound"] += sum(red)       # one count per execution
+            for p in r.prints:
+                m = re.match(r'<<"DRIFT", (\d+), (.*)>>', p)
+                if m:
+                    NEV["drift"] += 1
+                    if len(ctx.drift) < 3:
+                        ctx.spec_drift("Link", "decoder 0 does not follow DecCtl / Link!DecFrame (%s) at %s line %s: %s" % (
+                            what, os.path.basename(cur), m.group(1), m.group(2)[:300]))
             if acc:
                 continue
             x, ev = exec_of(cur, rej)
@@ -405,6 +416,8 @@ def run(ctx):
     ctx.traces = NEV["executions"]
     ctx.evaluations = NEV["encodes"] + NEV["decodes"]
     ctx.notes["events"] = dict(NEV)
+    if NEV["redundancy_frames_bound"] == 0:
+        raise vf.Infra("vacuous binding: no redundancy frame was observed through the decoder hook")
     if NEV["packets"] == 0 or NEV["ms_packets"] == 0 or NEV["one_byte_100ms"] == 0 or NEV["toc_only"] == 0 or NEV["nan_inputs"] == 0:
         raise vf.Infra("vacuous replay: %s" % NEV)
 
